@@ -63,3 +63,20 @@ func FirstLayers() []gopacket.LayerType {
 	sort.Slice(firstLayers, func(a, b int) bool { return firstLayers[a] < firstLayers[b] })
 	return firstLayers
 }
+
+// ByteDecoder is what every layer type with an in-place decoder offers, whether or not it is a full
+// gopacket.DecodingLayer.
+type ByteDecoder interface {
+	DecodeFromBytes(data []byte, df gopacket.DecodeFeedback) error
+}
+
+// ByteDecoders lists every registered type that has a DecodeFromBytes method.
+func ByteDecoders() []Type {
+	var out []Type
+	for _, t := range types {
+		if _, ok := t.New().(ByteDecoder); ok {
+			out = append(out, t)
+		}
+	}
+	return out
+}
